@@ -268,6 +268,12 @@ Definition old_view (sh : shape) (old : option nat) (pre : list cyc) : kv :=
 Definition old_stale (sh : shape) (old : option nat) (pre : list cyc) (c : cyc) : list Z :=
   match old with Some i => if ticks c i then [] else trem (spec_tgt sh i pre) | None => [] end.
 
+Definition retargets (op : Z) (old : option nat) (c : cyc) : bool :=
+  match pub_of op old c with Some _ => true | None => false end.
+
+Lemma retargets_false op old c : retargets op old c = false <-> sel_step op old c = old.
+Proof. unfold retargets. rewrite <- pub_none. destruct (pub_of op old c); split; congruence. Qed.
+
 (* The last cycle, described through the specification notions only. *)
 Lemma last_out_cases sh op pre c :
   wf (pre ++ [c]) ->
@@ -283,7 +289,8 @@ Lemma last_out_cases sh op pre c :
     (bound_ticked old c = false -> lk_lmt l1 <= last_t pre) /\
     ((cur = old /\ l2 = l1 /\ rn = false /\ o_ref o = false) \/
      (exists j, cur = Some j /\ old <> Some j /\ rebind sh t ts j l1 = (l2, rn) /\ o_ref o = true)) /\
-    o_cons o = consumers (bound_ticked old c || rn) (c_poke c) (c_force c) (read sh t ts l2) /\
+    o_cons o = consumers (bound_ticked old c || rn || (c_nest c && (retargets op old c || c_poke c)))
+                         (c_poke c) (c_force c) (read sh t ts l2) /\
     o_direct o = directs c ts /\ o_t o = t.
 Proof.
   intros Hwf old cur t o.
@@ -306,12 +313,14 @@ Proof.
   rewrite Hro. fold old.
   destruct (pub_of op old c) as [s|] eqn:Ep.
   - destruct (rebind sh (c_t c) ts s l1) as [l2 rn] eqn:Er. simpl.
-    apply pub_some in Ep. destruct Ep as [Es Hne].
+    pose proof Ep as Ep'. apply pub_some in Ep. destruct Ep as [Es Hne].
     exists ts, l1, l2, rn. repeat split; auto.
-    right. exists s. repeat split; auto. unfold cur. rewrite spec_sel_snoc. exact Es.
-  - simpl. apply pub_none in Ep.
+    + right. exists s. repeat split; auto. unfold cur. rewrite spec_sel_snoc. exact Es.
+    + unfold retargets. rewrite Ep'. reflexivity.
+  - simpl. pose proof Ep as Ep'. apply pub_none in Ep.
     exists ts, l1, l1, false. repeat split; auto.
-    left. repeat split; auto. unfold cur. rewrite spec_sel_snoc. exact Ep.
+    + left. repeat split; auto. unfold cur. rewrite spec_sel_snoc. exact Ep.
+    + unfold retargets. rewrite Ep'. reflexivity.
 Qed.
 
 (* ---- facts about [read] ---- *)
@@ -459,7 +468,8 @@ Lemma last_out_reading sh op pre c :
     o_cons (last_out sh op pre c) = consumers n (c_poke c) (c_force c) (read sh (c_t c) ts l2).
 Proof.
   intros Hwf. destruct (last_out_cases sh op pre c Hwf) as (ts & l1 & l2 & rn & _ & Hts & Hl1 & _ & _ & _ & Hc & Hcons & _).
-  exists ts, l2, (bound_ticked (spec_sel op pre) c || rn). repeat split; auto.
+  exists ts, l2, (bound_ticked (spec_sel op pre) c || rn || (c_nest c && (retargets op (spec_sel op pre) c || c_poke c))).
+  repeat split; auto.
   destruct Hc as [(Hcur & -> & _ & _)|(j & Hcur & Hne & Hr & _)].
   - rewrite Hl1. symmetry. exact Hcur.
   - rewrite Hcur. replace l2 with (fst (rebind sh (c_t c) ts j l1)) by (rewrite Hr; reflexivity).
@@ -663,9 +673,9 @@ Qed.
    sees that removal); next cycle the reference is retargeted to B = {5}: the consumer
    is told that 1 AND 2 were removed. *)
 Definition refute_pre : list cyc :=
-  [mkC 1 (Some 1) [Some [1; 2]; None; None] false false;
-   mkC 2 None [Some [-1]; Some [5]; None] false false].
-Definition refute_c : cyc := mkC 3 (Some 0) [None; None; None] false false.
+  [mkC 1 (Some 1) [Some [1; 2]; None; None] false false false;
+   mkC 2 None [Some [-1]; Some [5]; None] false false false].
+Definition refute_c : cyc := mkC 3 (Some 0) [None; None; None] false false false.
 
 Lemma keyed_retarget_is_diff_refuted_l :
   exists sh op pre c j,
@@ -690,7 +700,7 @@ Lemma unselected_never_reaches_l sh op pre c cid r :
   spec_sel op (pre ++ [c]) = spec_sel op pre ->
   (forall j, spec_sel op pre = Some j -> ticks c j = false) ->
   In (cid, r) (o_cons (last_out sh op pre c)) ->
-  (c_force c = true \/ (c_poke c = true /\ (cid = 1%nat \/ cid = 2%nat))) /\
+  (c_force c = true \/ (c_poke c = true /\ (cid = 1%nat \/ cid = 2%nat \/ c_nest c = true))) /\
   r_mod r = false /\ r_upd r = [] /\ r_rem r = [] /\
   match spec_sel op pre with
   | Some j => r_valid r = tvalid (spec_tgt sh j pre) /\
@@ -704,10 +714,14 @@ Proof.
   assert (Hbt : bound_ticked (spec_sel op pre) c = false).
   { unfold bound_ticked. destruct (spec_sel op pre) as [j|]; [apply Hnt; reflexivity|reflexivity]. }
   destruct Hc as [(_ & -> & -> & _)|(j & Hcur & Hne & _)]; [|rewrite Hsame in Hcur; contradiction].
-  rewrite Hbt in Hcons. simpl in Hcons. rewrite Hcons in Hin.
+  assert (Hrt : retargets op (spec_sel op pre) c = false).
+  { apply retargets_false. rewrite <- spec_sel_snoc. exact Hsame. }
+  rewrite Hbt, Hrt in Hcons. simpl in Hcons. rewrite Hcons in Hin.
   apply consumers_in in Hin. destruct Hin as [-> Hwho].
-  assert (Hp : c_force c = true \/ (c_poke c = true /\ (cid = 1%nat \/ cid = 2%nat))).
-  { destruct Hwho as [[_ [H|H]]|[[-> [H|[H|H]]]|[[-> [H|H]]|[_ [[H|H] _]]]]]; try discriminate; auto. }
+  assert (Hn : c_nest c && c_poke c = true -> c_poke c = true /\ c_nest c = true).
+  { intros H. apply andb_true_iff in H. tauto. }
+  assert (Hp : c_force c = true \/ (c_poke c = true /\ (cid = 1%nat \/ cid = 2%nat \/ c_nest c = true))).
+  { destruct Hwho as [[_ [H|H]]|[[-> [H|[H|H]]]|[[-> [H|H]]|[_ [[H|H] _]]]]]; try (apply Hn in H); intuition. }
   split; [exact Hp|].
   specialize (Hb Hbt).
   assert (Hq : forall j, lk_tgt l1 = Some j -> tlmt (get_t ts j) < c_t c).
@@ -744,7 +758,7 @@ Lemma same_reference_no_tick_l sh op pre c v :
   o_ref (last_out sh op pre c) = false /\
   (ticks c (sel_target op v) = false ->
    forall cid r, In (cid, r) (o_cons (last_out sh op pre c)) ->
-     (c_force c = true \/ (c_poke c = true /\ (cid = 1%nat \/ cid = 2%nat))) /\
+     (c_force c = true \/ (c_poke c = true /\ (cid = 1%nat \/ cid = 2%nat \/ c_nest c = true))) /\
      r_mod r = false /\ r_upd r = [] /\ r_rem r = []).
 Proof.
   intros Hwf Hsel Hold.
